@@ -13,10 +13,12 @@ Local Open Scope Z_scope.
 Definition byte := Z.
 Definition zlen {A} (l : list A) : Z := Z.of_nat (length l).
 
-(* Two points where a repair of the library is proposed are parameters of the model, so that both the current and the
-   repaired behaviour are modelled and the check can follow the tree it is run on:
-     esc_bs  : str_schar2oct also escapes the backslash                      (current code: false)
-     maxlen  : bufr_callback_write_message refuses len_msg > maxlen          (current code: 16777216 = BUFR_MAX_MSG_LEN) *)
+(* Two points where the library was found wrong while this check was built are parameters of the model, so that the code
+   before and after the repairs is modelled and the check can follow the tree it is run on (it probes the library):
+     esc_bs  : str_schar2oct also escapes the backslash         (false before commit a38e739 of /repo, true since)
+     maxlen  : bufr_callback_write_message refuses len_msg > maxlen   (16777216 = BUFR_MAX_MSG_LEN before commit 750fe5b,
+                                                                       16777215 since: the comparison became >=)
+   cfg_current = the code as it was when the check was written, cfg_fixed = with both repairs. *)
 Record cfg := { esc_bs : bool; maxlen : Z }.
 Definition cfg_current : cfg := {| esc_bs := false; maxlen := 16777216 |}.
 Definition cfg_fixed : cfg := {| esc_bs := true; maxlen := 16777215 |}.
